@@ -123,7 +123,7 @@ class World:
                 fqn_encapsulee_name=enc, ports_cfg=self.portscfgs[pkey],
                 facilities_origin=FacilitiesOrigin.CREATE if d['fac'] == 'create' else FacilitiesOrigin.IMPORT,
                 copyright=d['copyright'], support_files_ns_prefix=self.prefixes[d['prefix']],
-                creator_info=d['creator'])
+                creator_info=d['creator'], verbose=(ci in (1, 2)))     # configurations 1 and 2 log verbosely
         self.builder = Builder()
 
     def inputs(self):
@@ -139,8 +139,11 @@ class World:
 
 
 def outcome_of(builder, cfg):
+    import contextlib  # pylint: disable=import-outside-toplevel
+    import io  # pylint: disable=import-outside-toplevel
     try:
-        res = builder.build(cfg)
+        with contextlib.redirect_stdout(io.StringIO()):
+            res = builder.build(cfg)
         # the reported content hash is part of the output: it must be the md5 of THESE contents
         return [[f.filename, hashlib.md5(f.contents.encode('utf-8')).hexdigest() +
                  ('' if f.hash == hashlib.md5(f.contents.encode('utf-8')).hexdigest() else f'/reported-hash={f.hash}')]
